@@ -70,6 +70,10 @@ def read_jsonl(path):
     return out
 
 
+# panics located in the crate that escaped a monitor's guards (see run_shards); Verdict.finish() reports them
+ESCAPED = []
+
+
 def run_shards(binary, cmd, jobs, wd, tag, wall_timeout=3600, max_restarts=8, resumable=True, max_hangs_total=32):
     """Run one harness process per job (each job a dict with a 'cases' list), at most NCPU at a time.
     A process that exits with code 3 (watchdog HANG) is restarted after the hanging case.
@@ -129,6 +133,18 @@ def run_shards(binary, cmd, jobs, wd, tag, wall_timeout=3600, max_restarts=8, re
                 continue
             if rc == 3:
                 meta['hangs'] += 1
+                continue
+            if rc == 4:
+                # a panic escaped the monitor's guards (the harness reports it and stops that shard): located in the
+                # crate it is a violation (collected in ESCAPED, added by Verdict.finish), anywhere else a harness defect
+                esc = [e for e in read_jsonl(r['op']) if e.get('ev') == 'escaped_panic']
+                msg = esc[-1].get('msg', '') if esc else ''
+                if '@ /repo/' in msg:
+                    ESCAPED.append({'shard': r['i'], 'cmd': cmd, 'msg': msg, 'ctx': esc[-1].get('ctx')})
+                    meta.setdefault('escaped_panics', 0)
+                    meta['escaped_panics'] += 1
+                    continue
+                meta['crashes'].append({'shard': r['i'], 'rc': rc, 'stderr': ('escaped panic: ' + msg)[-2000:]})
                 continue
             meta['crashes'].append({'shard': r['i'], 'rc': rc, 'stderr': err[-2000:]})
         running = still
@@ -255,6 +271,10 @@ class Verdict:
 
     def finish(self):
         """print KNOWN-FINDING / VIOLATION lines; returns exit code"""
+        import re
+        while ESCAPED:
+            e = ESCAPED.pop(0)
+            self.add({'kind': 'panic_outside_guard', 'cmd': e['cmd'], 'class': re.sub(r'[-+]?\d[\d.e+-]*', '#', e['msg'])[:120]}, e)
         for kid, h in sorted(self.known_hits.items()):
             print('KNOWN-FINDING: property=%s %s (%d signature(s) this run)' % (self.prop, h['finding']['what'], h['n']))
         os.makedirs(os.path.join(REPLAYS, self.prop), exist_ok=True)
